@@ -1507,11 +1507,66 @@ impl ArrayObject {
     }
 }
 
+type ChannelQueue = Arc<Mutex<VecDeque<Message>>>;
+
+/// A value in transit between green threads. It owns its data, so it stays valid after the
+/// writer's heap has been collected or the writer has finished.
+enum Message {
+    Scalar(Value),
+    String(String),
+    Array(Vec<Message>),
+    Struct(Vec<Message>),
+    Variant(u16, Box<Message>),
+    Channel(ChannelQueue),
+}
+
+impl Message {
+    fn from_value(v: Value, vm: &mut VmGreenThread) -> Message {
+        match v.1 {
+            ValueTag::Int | ValueTag::Float | ValueTag::Bool | ValueTag::Addr => Message::Scalar(v),
+            ValueTag::String => Message::String(v.view_string(vm).to_string()),
+            ValueTag::Array => {
+                let elems = v.get_array(vm).data.clone();
+                Message::Array(elems.into_iter().map(|e| Message::from_value(e, vm)).collect())
+            }
+            ValueTag::Struct => {
+                let fields = v.get_struct(vm).get_fields().to_vec();
+                Message::Struct(fields.into_iter().map(|f| Message::from_value(f, vm)).collect())
+            }
+            ValueTag::Variant => {
+                let variant = v.get_variant(vm);
+                Message::Variant(variant.tag, Box::new(Message::from_value(variant.val, vm)))
+            }
+            ValueTag::Channel => Message::Channel(unsafe { v.get_channel(vm) }.data.clone()),
+        }
+    }
+
+    fn into_value(self, vm: &mut VmGreenThread) -> Value {
+        match self {
+            Message::Scalar(v) => v,
+            Message::String(s) => StringObject::new(s, vm).into(),
+            Message::Array(elems) => {
+                let elems = elems.into_iter().map(|e| e.into_value(vm)).collect();
+                ArrayObject::new(elems, vm).into()
+            }
+            Message::Struct(fields) => {
+                let fields = fields.into_iter().map(|f| f.into_value(vm)).collect();
+                StructObject::new(fields, vm).into()
+            }
+            Message::Variant(tag, val) => {
+                let val = val.into_value(vm);
+                EnumObject::new(tag, val, vm).into()
+            }
+            Message::Channel(data) => ChannelObject::new_with_data(vm, data).into(),
+        }
+    }
+}
+
 #[repr(C)]
 struct ChannelObject {
     header: ObjectHeader,
     // TODO: instead of Arc Mutex VecDeque there's probably something much better
-    data: Arc<Mutex<VecDeque<Value>>>,
+    data: ChannelQueue,
 }
 
 impl ChannelObject {
@@ -1519,10 +1574,7 @@ impl ChannelObject {
         ChannelObject::new_with_data(vm, Arc::new(Mutex::new(VecDeque::new())))
     }
 
-    fn new_with_data(
-        vm: &mut VmGreenThread,
-        data: Arc<Mutex<VecDeque<Value>>>,
-    ) -> *mut ChannelObject {
+    fn new_with_data(vm: &mut VmGreenThread, data: ChannelQueue) -> *mut ChannelObject {
         let header = ObjectHeader {
             kind: ObjectKind::Channel,
             visited: match &vm.gc_state {
@@ -1548,23 +1600,19 @@ impl ChannelObject {
         chan
     }
 
-    fn read_value(&self) -> Option<Value> {
+    fn read_value(&self) -> Option<Message> {
         let mut data = self.data.lock().unwrap();
         // TODO: it would be better to put this thread to sleep instead of constantly trying and failing to read from the channel
         data.pop_front()
     }
 
-    fn write_value(&self, val: Value) {
+    fn write_value(&self, val: Message) {
         let mut data = self.data.lock().unwrap();
         data.push_back(val);
     }
 
     fn copy(&self, vm: &mut VmGreenThread) -> Value {
         ChannelObject::new_with_data(vm, self.data.clone()).into()
-    }
-
-    fn header_ptr(&mut self) -> *mut ObjectHeader {
-        self as *mut Self as *mut ObjectHeader
     }
 
     fn nbytes(&self) -> usize {
@@ -2343,7 +2391,7 @@ impl VmGreenThread {
                 let read_val = chan_obj.read_value();
                 match read_val {
                     Some(read_val) => {
-                        let read_val = read_val.deep_copy(self);
+                        let read_val = read_val.into_value(self);
                         #[cfg(abra_verif)]
                         verif::ev(verif::T_CHAN, || {
                             format!(
@@ -2376,9 +2424,8 @@ impl VmGreenThread {
                 let chan = self.pop(); // TODO: use registers
                 let chan = unsafe { chan.get_channel_mut(self) };
 
-                // TODO: write_barrier not necessary
-                self.write_barrier(chan.header_ptr(), val);
-                chan.write_value(val);
+                // the queue gets its own copy: it must not point into this thread's heap
+                chan.write_value(Message::from_value(val, self));
                 #[cfg(abra_verif)]
                 verif::ev(verif::T_CHAN, || {
                     format!(
@@ -2720,10 +2767,6 @@ impl VmGreenThread {
                 ObjectKind::Channel => {
                     let obj = unsafe { &*(header_ptr as *const ChannelObject) };
                     *batch = batch.saturating_sub(obj.nbytes());
-                    let data = obj.data.lock().unwrap();
-                    for elem in data.iter() {
-                        Self::mark(elem, &mut self.gray_stack, self.gc_visited);
-                    }
                 }
             }
         }
